@@ -6,145 +6,224 @@ ENGINES = [
 ]
 NOTES = "Obligation kinds P/E/F are counted as proved; B (bounded stand-ins) are labelled and never counted. See DESIGN.md."
 NOT_APPLICABLE = {}
-CHECKS = {
-    "C10": {
-        "level": "other", "engine": "pyvc",
-        "technique": "contract on ScratchSlot.__init__ (pyvc/z3, class counter as ghost cell) + limit probes + bounded stand-in with up to 300 live variables on the spec AVM",
-        "text": "ScratchSlot.__init__ is proved to keep a requested id in [0,256) and flag it reserved, reject other ids, and hand out automatic ids >= 256 from a strictly increasing counter. Programs with 1..300 simultaneously live variables (automatic, explicit, dynamically indexed; main routine and subroutine; optimiser / frame-pointer settings; more than 128 frame temporaries) must keep every value, use the requested slots, and be rejected beyond 256 slots or on duplicate ids (bounded).",
-        "note": "assignScratchSlotsToSubroutines itself is not yet discharged deductively.",
-        "design_ref": "DESIGN.md 5/C10",
-    },
-    "C11": {
-        "level": "other", "engine": "pyvc",
-        "technique": "region contract on the slot numbering of assignScratchSlotsToSubroutines (pyvc: the numbering is a function of the slots' (id, reserved) pairs, not of set iteration order) + syntactic frame audit of every set iteration on the compile path (allow-list with reasons) + bounded stand-in: digests of compiled TEAL compared across fresh processes, hash seeds, histories of successful and failing API activity, order and repetition",
-        "text": "Proved: the scratch-slot numbering fills the gaps left by requested ids in ascending id order, for every finite set of slots. Audited: every iteration over a set on the compile path is either ordered by sorted() or classified order-insensitive with a stated reason. Bounded: the same sources (generated programs, an ABI subroutine program, routers incl. one whose first compilation fails) are compiled in separate processes under different PYTHONHASHSEED values, after successful / failing / mixed unrelated activity, in reversed order, and twice in one process (same object and rebuilt source); all digests must be equal.",
-        "note": "no reads-frame / restore-on-all-exits contracts for class-level state (ScratchSlot.nextSlotId, SubroutineDefinition.nextSubroutineId, memoised declarations): history independence is bounded only. Known finding: repeated Router.compile_program renumbers slots.",
-        "design_ref": "DESIGN.md 5/C11, 10.3",
-    },
-    "C12": {
-        "level": "other", "engine": "pyvc",
-        "technique": "contract on the real createConstantBlocks (pyvc VCs: every emitted load site denotes the value of the op it replaces, indices address the emitted block, no exception; z3/cvc5) with a Lean-checked side lemma for the byte-block prefix + bounded stand-ins: independent TEAL literal decoder on every constant-load site of generated programs, many-constant programs, differential execution on the spec AVM",
-        "text": "Proved for every component list: createConstantBlocks emits the int block then the byte block, then exactly one component per input component; a constant load becomes pushint/pushbytes of the value extract*Value returns, or intc/bytec whose index is inside the emitted block (<= 256 entries) and whose entry equals that value (in its 0x-hex / template-name text for bytes); everything else is passed through unchanged; no KeyError / ValueError / IndexError on any path. Bounded: the literal decoding itself (every byte-literal syntax, enums, templates) against an independent decoder, and run-time equality of the two programs on generated and many-constant programs.",
-        "note": "the extract*Value functions are trusted callee summaries in the proof (their decoding is the bounded part); sorted() and the two comprehensions are summarised under a syntactic guard; the frequency rule ('top four or >= 128') is not part of the property and is not specified.",
-        "design_ref": "DESIGN.md 5/C12, 10.3",
-    },
-    "C15": {
-        "level": "other", "engine": "pyvc",
-        "technique": "contracts on the real _base64vlq_encode / _base64vlq_decode (pyvc VCs over unbounded integers, z3/cvc5) against the Revision-3 VLQ definition and a region contract on the delta bookkeeping of R3SourceMap.to_json (every emitted segment decodes, under the specified decoder state machine, to its entry) + bounded stand-ins: source-map compilation of generated programs (TEAL identity, one entry per line, R3 JSON round trip via an independent decoder, annotated TEAL), one attribution scenario",
-        "text": "Proved for every tuple of integers (any sign, any magnitude, any count): the sextets _base64vlq_encode hands to the base64 alphabet are the canonical Base64-VLQ of the values, and _base64vlq_decode returns exactly the values from any canonical text, so decode(encode(vs)) == vs; the two alphabet tables are inverse (64 cases); for every map, each segment to_json hands to the encoder decodes to its entry's generated column, source index, source line, source column and name index. Bounded: for generated programs the TEAL with a source map equals the TEAL without; the map has one entry per line in order pointing at existing file lines; the Revision-3 JSON decodes (real decoder and an independent one) to the same associations; annotated TEAL minus comments equals the plain TEAL; constants written on known lines of a generated module are attributed to those lines.",
-        "note": "from_json, the string plumbing of the JSON, frame selection (CPython frame introspection) and annotation are bounded stand-ins only; identity of TEAL with/without the map is asserted by the compiler itself and re-checked here on generated programs.",
-        "design_ref": "DESIGN.md 5/C15, 10.3",
-    },
-    "C17": {
-        "level": "other", "engine": "pyvc",
-        "technique": "closure contract on the real TealBlock.validateSlots (pyvc VCs over arbitrary block graphs / slot sets, recursive call against the same contract, z3/cvc5) + bounded stand-in: exhaustive small-scope enumeration of statement shapes through compileTeal against an independent path analysis",
-        "text": "Proved for every block graph: a call of validateSlots returns errors naming every load that is bad in its own state, puts every successor state into the visited set, and every state it adds to the visited set is itself explored (its bad loads reported, its successors visited); with the induction on path length (meta-lemma M17) the root call therefore reports every load reachable along a syntactic path without a prior store. Bounded: every statement shape of nesting depth <= 2 over store / load / If / If-Else / Seq / While / Cond / Break / Continue / Return is compiled and must be rejected, with an error naming the offending load, exactly when an independent analysis finds such a path.",
-        "note": "termination of the recursion and the caller's 'raise if non-empty' step are not under contract (the latter is exercised by the bounded stand-in); M17 is a three-line induction stated in DESIGN.md, not mechanised.",
-        "design_ref": "DESIGN.md 5/C17, 10.3",
-    },
-    "C13": {
-        "level": "other", "engine": "enumeration",
-        "technique": "exhaustive enumeration of escapeStr over every Unicode code point against an independent TEAL string-literal parser; contract on Int.__init__ (pyvc/z3); bounded stand-in for concatenations and the other literal syntaxes on the spec AVM",
-        "text": "For each code point the literal produced by escapeStr parses back (independent TEAL grammar) to exactly its UTF-8 bytes, is printable ASCII and stays one token even when followed by a comment. Int.__init__ is proved to accept exactly the integers in [0, 2^64) and to store them. Strings over an adversarial alphabet, raw bytes, base16/32/64 forms, malformed literals, addresses and method signatures are compiled and executed on the spec AVM (bounded).",
-        "note": "trusted: TEAL literal grammar of spec/avm.py, python base64/hashlib, algosdk address codec; codec homomorphism assumed (bounded-validated).",
-        "design_ref": "DESIGN.md 5/C13",
-    },
-    "C18": {
-        "level": "other", "engine": "fragcheck",
-        "technique": "fragment contracts for Comment / Nonce / Pragma / Assert(comment) (fragcheck, z3) + bounded stand-in: generated programs compiled with and without adversarial annotations, instruction streams compared",
-        "text": "Each annotation construct is proved (on opaque children, all run-time states) to have exactly its child's meaning (Nonce: plus the documented push-and-pop). At text level, generated programs annotated at random statement positions and with adversarial subroutine names must give the same instruction stream as the un-annotated program once comment lines are dropped and labels are renamed canonically (bounded).",
-        "note": "trusted: spec terms, TEAL line grammar of spec/avm.py.",
-        "design_ref": "DESIGN.md 5/C18",
-    },
-    "C08": {
-        "level": "other", "engine": "exprsym",
-        "technique": "run-time guards built by the real MethodConfig.approval_cond / CallConfig code for all 4 + 4^5 configurations (exhaustive), each proved by z3 over symbolic uint64 OnCompletion / ApplicationID against the registration semantics; bounded stand-in for whole routers on the spec AVM",
-        "text": "For every CallConfig and every one of the 1024 MethodConfigs the guard expression returned by the real code is proved non-zero exactly on the allowed (OnCompletion, create / non-create) pairs for all inputs. Dispatch of whole generated routers (bare actions, methods, unknown selectors, clear-state program, contract description) is checked on the spec AVM for all calls (bounded).",
-        "note": "trusted: spec/exprsym.py operator meanings, registration semantics as written in the check, sha512/256. approval_construction / to_cond_node / program_construction have no own contract yet.",
-        "design_ref": "DESIGN.md 5/C08",
-    },
-    "C09": {
-        "level": "other", "engine": "enumeration",
-        "technique": "enumeration over arities: the real argument-decoding glue of routed methods is executed for every arity in a range on opaque ABI values and its instruction list compared structurally with the ARC-4 calling convention (E, exhaustive within the range) + bounded stand-ins: generated method signatures routed and called with ARC-4 encoded arguments on the spec AVM, registration histories against the returned contract description",
-        "text": "For 0..24 (quick) / 0..40 (thorough) plain arguments x 0..4 transaction arguments x with / without a result x scratch / frame-pointer flavour, for all argument values: plain argument i is decoded from ApplicationArgs[i+1]; with more than 15, arguments 15.. come from one tuple in ApplicationArgs[15], de-tupled in order; transaction argument j of t is the group transaction at GroupIndex - (t - j), its type enforced unless generic. Bounded: generated signatures (0..20 parameters, all kinds) executed with real encoded arguments (binding, reference indices, result logged once as 0x151f7c75 ++ encoding before approve); registration histories (plain / overriding name / decorator / described / refused) against the contract JSON and the selectors the program dispatches on.",
-        "note": "no pyvc contract: the glue builds lists by comprehensions over ABI value objects; the arity enumeration is exhaustive only within its stated bound.",
-        "design_ref": "DESIGN.md 5/C09, 10.4",
-    },
-    "C14": {
-        "level": "other", "engine": "pyvc",
-        "technique": "contract on the real InnerTxnBuilder.MethodCall (pyvc VCs over arbitrary signatures / argument lists incl. its `match` dispatch; z3/cvc5) + rejection probes (enumeration) + bounded stand-in: generated signatures compiled and executed on the spec AVM, inner group decoded as an ARC-4 callee would",
-        "text": "Proved for every signature and argument list: MethodCall returns Seq(transaction arguments in order each followed by itxn_next; type_enum = appl; [application_id]; [accounts]; [applications]; [assets]; application_args; extra fields), the reference arguments are appended to their foreign array in order and passed as the one-byte index ARC-4 prescribes (accounts and applications position + 1, assets position), plain arguments follow the selector of the given signature in order (an Expr as is, an ABI value as its encoding); only TealInputError / TealTypeError (or algosdk's encoding error beyond 255 references) are raised. Bounded: generated signatures incl. repeated reference kinds and caller-supplied foreign arrays executed on the spec AVM; type rejections probed. Known finding: no tuple packing beyond 15 arguments.",
-        "note": "the constructors (SetField, Seq, Bytes, MethodSignature, uint8 encode) and the type-spec queries are callee summaries; run-time behaviour is bounded only.",
-        "design_ref": "DESIGN.md 5/C14, 10.3",
-    },
-    "C19": {
-        "level": "other", "engine": "enumeration",
-        "technique": "exhaustive enumeration of all ordered pairs over a bounded universe of ABI type terms against an independent layout erasure (and the reference codec on values); call-site rejection sampled",
-        "text": "For every ordered pair (a, b) of a universe of ~200 (quick) type terms - leaves, arrays, tuples, named tuples, nested, reference and transaction types - type_spec_is_assignable_to(a, b) implies that a and b have the same ARC-4 layout (or b is the generic transaction type), and sampled values of a encode to the same bytes under b. Not a structural-induction proof: exhaustive only within the universe.",
-        "note": "bounded universe; trusted: algosdk type parser / codec and the erasure.",
-        "design_ref": "DESIGN.md 5/C19",
-    },
-    "C06": {
-        "level": "other", "engine": "pyvc",
-        "technique": "contracts on the ARC-4 layout arithmetic (pyvc loop invariants against an independent element-by-element position function, z3) + bounded stand-in against the reference codec algosdk.abi",
-        "text": "_bool_sequence_length, _consecutive_thing_num and _bool_aware_static_byte_length are proved for every type sequence: the static length equals the ARC-4 position function (bool packing included). Type strings, dynamic-ness, static lengths and the bytes produced by set()/encode() are compared with algosdk.abi for generated shapes and boundary-biased values at versions 5..10, in the main routine and inside subroutines (bounded). Out-of-range integers: rejected as Python ints, failing as expressions (bounded).",
-        "note": "trusted: algosdk.abi, the position-function spec, TypeSpec interface contracts for element types (is_dynamic, byte_length_static as uninterpreted functions). The Expr layer of _encode_tuple is not yet under contract.",
-        "design_ref": "DESIGN.md 5/C06",
-    },
-    "C07": {
-        "level": "other", "engine": "pyvc",
-        "technique": "contract on the real _index_tuple against the ARC-4 position function (pyvc VCs over arbitrary type sequences and indices, z3/cvc5; callee contracts of the layout helpers shared with C06) + bounded stand-in: decode / element access on generated shapes, values and positions against algosdk.abi on the spec AVM",
-        "text": "Proved for every sequence of element types and every index: _index_tuple raises ValueError exactly for an out-of-range index and TypeError exactly for a mismatching output type, and otherwise returns decode_bit at the element's ARC-4 bit position (bool), a decode between the uint16 head at the element's head offset and the head of the first following dynamic element (dynamic; open-ended iff none follows), or a decode of the window [offset, offset + static length) (static; the abbreviated forms only where they denote that window). Bounded: for generated type shapes and values every tuple / array position (constant and computed index), get(), length() and the decode-encode round trip are compared with the reference encoding of the component; out-of-range indices must fail. Three classes of non-failing out-of-range array accesses are known findings.",
-        "note": "array element access (ArrayElement, computed indices), the scalar decoders and the Expr constructors are bounded only; the contract treats decode()/decode_bit()/ExtractUint16/Int as pure record constructors.",
-        "design_ref": "DESIGN.md 5/C07, 10.3",
-    },
-    "C04": {
-        "level": "other", "engine": "pyvc",
-        "technique": "contracts on verifyOpsForVersion / verifyOpsForMode / verifyProgramVersion (pyvc loop invariants, z3) + exhaustive table comparison of Op / TxnField / GlobalField with an independent langspec + bounded structural validation of emitted TEAL",
-        "text": "The version and mode gates are proved for every component list: compilation passes them iff every op exists at the version and in the mode. Every row of pyteal's opcode, transaction-field and global-field tables equals the independently written AVM table (name, first version, modes, type, array-ness). Pragma, label uniqueness, defined targets, placeholders, terminators and immediate ranges are validated on the emitted text of generated programs and hand-written probes (bounded).",
-        "note": "trusted: spec/langspec.py (hand-written from the AVM spec), spec/tealcheck.py. flattenBlocks / resolveSubroutines label contracts not yet discharged deductively.",
-        "design_ref": "DESIGN.md 5/C04",
-    },
-    "C03": {
-        "level": "other", "engine": "pyvc",
-        "technique": "contracts on the option-default functions (pyvc/z3); version-parametric fragment contracts (C01); bounded stand-in: every option pair x versions on generated programs against the description's meaning",
-        "text": "OptimizeOptions.optimize_scratch_slots / use_frame_pointers are proved to follow the documented defaults (v9 / v8) and to honour / reject explicit requests. Whole-program independence of (scratch_slots, frame_pointers, version) - outcome, empty stack at exit, final user-numbered slots - is a bounded stand-in over generated programs; the slot optimiser itself is not yet under contract.",
-        "note": "proof part covers only the option-default functions; optimiser + whole program are bounded (labelled). Known finding O3.4 (optimiser leaves values on the stack) is reported as KNOWN-FINDING.",
-        "design_ref": "DESIGN.md 5/C03",
-    },
-    "C05": {
-        "level": "other", "engine": "fragcheck",
-        "technique": "fragment contracts (stack delta / type_of / has_return clauses, z3) + exhaustive tables (type lattice, operator signatures vs langspec) + bounded abstract interpretation of emitted TEAL",
-        "text": "Each construct's fragment is proved to push exactly type_of() values and never to touch the stack below its entry, for all run-time states (fragcheck); require_type / types_match are checked on all 16 type pairs; every operator factory's operand/result types agree with the langspec signature of its op. Per-program discipline (equal heights on all paths, retsub deltas, no definite type error) is decided by abstract interpretation of the emitted TEAL for generated programs (bounded).",
-        "note": "trusted: langspec signatures, tealcheck abstract interpreter, spec terms. Raw ScratchSlot.store() excluded as in the property.",
-        "design_ref": "DESIGN.md 5/C05",
-    },
-    "C20": {
-        "level": "other", "engine": "bounded",
-        "technique": "exception-freedom contract on flattenBlocks (pyvc/z3) + bounded stand-ins: exhaustive small-scope enumeration of degenerate control-flow shapes and block graphs, generated programs, size probes",
-        "text": "All statement shapes of nesting depth <= 2 over pop / empty Seq / If / While / For / Cond / Break / Continue, as first statement and after a statement, at several versions with the optimiser on and off, must compile to TEAL (and behave as described) or raise a PyTeal error; plus generated programs and long / deeply nested probes. Exploration, not proof.",
-        "note": "only flattenBlocks is under contract; NormalizeBlocks / addIncoming / validateTree / sortBlocks are explored exhaustively on small graphs (bounded). Three defects found here were repaired (fix: commits); recursion depth on long programs is a known finding.",
-        "design_ref": "DESIGN.md 5/C20",
-    },
-    "C01": {
-        "level": "proof", "engine": "fragcheck",
-        "technique": "fragment contracts: the real __teal__ of every anchored construct run on opaque children, resulting block graph vs documented meaning by z3 for all run-time states (loops by cut-point simulation); bounded native stand-in for the block passes",
-        "text": "Per construct (operators, Seq, If/ElseIf, Cond, While, For with Break/Continue exits, Assert, Return/Approve/Reject, scratch access, MultiValue, Comment/Nonce/Pragma, SubroutineCall) the fragment built by the real method is proved equal to the documented meaning over uninterpreted child semantics: same effects in the same order, each operand once, only the selected branch / iteration. The control domain the method can observe (child types, has_return, pending exits, version, mode) is enumerated. NormalizeBlocks / sortBlocks / flattenBlocks are covered by the bounded stand-in only (for now).",
-        "note": "trusted: spec terms (documented meaning), langspec arities, meaning of control ops; meta-lemma L-frag; parametricity of constructs in their children. Whole-pipeline check is a bounded stand-in (generated programs on the spec AVM).",
-        "design_ref": "DESIGN.md 3, 5/C01",
-    },
-    "C02": {
-        "level": "proof",
-        "technique": "contract-based deductive verification: pyvc VCs from the real AST of spillLocalSlotsDuringRecursion with ghost execution of every appended op on an array-stack AVM state (symbolic numArgs, slot count, version), z3; bounded native stand-in end to end",
-        "text": "The per-call-site contract of the spill/restore sequences is proved for every argument count, every number of local slots, v4 (dig) and v5+ (cover/uncover) and every return shape of the callee: in front of callsub the stack is base++spilled++args, afterwards it is base++result and every local slot holds its pre-call value. The rest of the calling convention (SubroutineCall, SubroutineEval.evaluate, frame ops) is currently covered only by the bounded stand-in (generated recursive programs executed on the spec AVM against direct evaluation).",
-        "note": "trusted: spec/symavm.py, callee summary (pops n, pushes r, may clobber scratch), sorted() contract, slot ids distinct and <256 (C10), meta-lemma L-call; pyvc encoding; z3. Bounded part never counted as proved.",
-        "design_ref": "DESIGN.md 5/C02",
-    },
-    "C16": {
-        "level": "proof",
-        "technique": "contract-based deductive verification: pyvc VCs from the real AST of multiplyFactors (loop invariant, symbolic factor count) and WideRatio.__teal__ (against the callee contract), z3; bounded native stand-in end to end",
-        "text": "multiplyFactors is verified for every number of factors by a loop invariant over the spec sequences (running product, overflow, world threading, first abnormal factor); WideRatio.__teal__ is verified against that contract with the combine block executed on the symbolic AVM over mathematical integers: fails iff a running product overflows 128 bits, the divisor is zero or the quotient exceeds 64 bits, else pushes exactly floor(N/D).",
-        "note": "trusted: spec/symavm.py op semantics, the Expr.__teal__ interface contract for opaque factor expressions, meta-lemma L-frag, pyvc's encoding of the Python subset, z3. The end-to-end compile+run check is a bounded stand-in (labelled).",
-        "design_ref": "DESIGN.md 5/C16",
-    },
-}
+CHECKS = {'C10': {'level': 'other',
+         'engine': 'pyvc',
+         'technique': 'contract on ScratchSlot.__init__ and region contract on assignScratchSlotsToSubroutines (pyvc/z3: duplicate requested ids rejected, numbering injective and below 256 - '
+                      'pigeonhole step checked in Lean) + limit probes + access-path enumeration + bounded stand-in with up to 300 live variables on the spec AVM',
+         'text': 'ScratchSlot.__init__ is proved to keep a requested id in [0,256) and flag it reserved, reject other ids, and hand out automatic ids >= 256 from a strictly increasing counter. The '
+                 'slot assignment is proved, for every finite set of slots, to reject duplicate requested ids and more than 256 slots and to number the others injectively inside [0,256) around the '
+                 'requested ids. Programs with 1..300 simultaneously live variables and every access path (direct, dynamic, by reference, forwarded by reference, dynamic by reference) must keep '
+                 'every value, use the requested slots, and be rejected beyond the limits (bounded).',
+         'note': 'the write-back loop of assignScratchSlotsToSubroutines and collectScratchSlots are bounded only; lemmas/Pigeonhole.lean is re-checked on every run.',
+         'design_ref': 'DESIGN.md 5/C10'},
+ 'C11': {'level': 'other',
+         'engine': 'pyvc',
+         'technique': "region contract on the slot numbering of assignScratchSlotsToSubroutines (pyvc: the numbering is a function of the slots' (id, reserved) pairs, not of set iteration order) + "
+                      'syntactic frame audit of every set iteration on the compile path (allow-list with reasons) + bounded stand-in: digests of compiled TEAL compared across fresh processes, hash '
+                      'seeds, histories of successful and failing API activity, order and repetition',
+         'text': 'Proved: the scratch-slot numbering fills the gaps left by requested ids in ascending id order, for every finite set of slots. Audited: every iteration over a set on the compile '
+                 'path is either ordered by sorted() or classified order-insensitive with a stated reason. Bounded: the same sources (generated programs, an ABI subroutine program, routers incl. one '
+                 'whose first compilation fails) are compiled in separate processes under different PYTHONHASHSEED values, after successful / failing / mixed unrelated activity, in reversed order, '
+                 'and twice in one process (same object and rebuilt source); all digests must be equal.',
+         'note': 'no reads-frame / restore-on-all-exits contracts for class-level state (ScratchSlot.nextSlotId, SubroutineDefinition.nextSubroutineId, memoised declarations): history independence '
+                 'is bounded only. Known finding: repeated Router.compile_program renumbers slots.',
+         'design_ref': 'DESIGN.md 5/C11, 10.3'},
+ 'C12': {'level': 'other',
+         'engine': 'pyvc',
+         'technique': 'contract on the real createConstantBlocks (pyvc VCs: every emitted load site denotes the value of the op it replaces, indices address the emitted block, no exception; z3/cvc5) '
+                      'with a Lean-checked side lemma for the byte-block prefix + bounded stand-ins: independent TEAL literal decoder on every constant-load site of generated programs, many-constant '
+                      'programs, differential execution on the spec AVM',
+         'text': 'Proved for every component list: createConstantBlocks emits the int block then the byte block, then exactly one component per input component; a constant load becomes '
+                 'pushint/pushbytes of the value extract*Value returns, or intc/bytec whose index is inside the emitted block (<= 256 entries) and whose entry equals that value (in its 0x-hex / '
+                 'template-name text for bytes); everything else is passed through unchanged; no KeyError / ValueError / IndexError on any path. Bounded: the literal decoding itself (every '
+                 'byte-literal syntax, enums, templates) against an independent decoder, and run-time equality of the two programs on generated and many-constant programs.',
+         'note': 'the extract*Value functions are trusted callee summaries in the proof (their decoding is the bounded part); sorted() and the two comprehensions are summarised under a syntactic '
+                 "guard; the frequency rule ('top four or >= 128') is not part of the property and is not specified.",
+         'design_ref': 'DESIGN.md 5/C12, 10.3'},
+ 'C15': {'level': 'other',
+         'engine': 'pyvc',
+         'technique': 'contracts on the real _base64vlq_encode / _base64vlq_decode (pyvc VCs over unbounded integers, z3/cvc5) against the Revision-3 VLQ definition and a region contract on the '
+                      'delta bookkeeping of R3SourceMap.to_json (every emitted segment decodes, under the specified decoder state machine, to its entry) + bounded stand-ins: source-map compilation '
+                      'of generated programs (TEAL identity, one entry per line, R3 JSON round trip via an independent decoder, annotated TEAL), one attribution scenario',
+         'text': 'Proved for every tuple of integers (any sign, any magnitude, any count): the sextets _base64vlq_encode hands to the base64 alphabet are the canonical Base64-VLQ of the values, and '
+                 '_base64vlq_decode returns exactly the values from any canonical text, so decode(encode(vs)) == vs; the two alphabet tables are inverse (64 cases); for every map, each segment '
+                 "to_json hands to the encoder decodes to its entry's generated column, source index, source line, source column and name index. Bounded: for generated programs the TEAL with a "
+                 'source map equals the TEAL without; the map has one entry per line in order pointing at existing file lines; the Revision-3 JSON decodes (real decoder and an independent one) to '
+                 'the same associations; annotated TEAL minus comments equals the plain TEAL; constants written on known lines of a generated module are attributed to those lines.',
+         'note': 'from_json, the string plumbing of the JSON, frame selection (CPython frame introspection) and annotation are bounded stand-ins only; identity of TEAL with/without the map is '
+                 'asserted by the compiler itself and re-checked here on generated programs.',
+         'design_ref': 'DESIGN.md 5/C15, 10.3'},
+ 'C17': {'level': 'other',
+         'engine': 'pyvc',
+         'technique': 'closure contract on the real TealBlock.validateSlots (pyvc VCs over arbitrary block graphs / slot sets, recursive call against the same contract, z3/cvc5) + bounded stand-in: '
+                      'exhaustive small-scope enumeration of statement shapes through compileTeal against an independent path analysis',
+         'text': 'Proved for every block graph: a call of validateSlots returns errors naming every load that is bad in its own state, puts every successor state into the visited set, and every '
+                 'state it adds to the visited set is itself explored (its bad loads reported, its successors visited); with the induction on path length (meta-lemma M17) the root call therefore '
+                 'reports every load reachable along a syntactic path without a prior store. Bounded: every statement shape of nesting depth <= 2 over store / load / If / If-Else / Seq / While / '
+                 'Cond / Break / Continue / Return is compiled and must be rejected, with an error naming the offending load, exactly when an independent analysis finds such a path.',
+         'note': "termination of the recursion and the caller's 'raise if non-empty' step are not under contract (the latter is exercised by the bounded stand-in); M17 is a three-line induction "
+                 'stated in DESIGN.md, not mechanised.',
+         'design_ref': 'DESIGN.md 5/C17, 10.3'},
+ 'C13': {'level': 'other',
+         'engine': 'enumeration',
+         'technique': 'exhaustive enumeration of escapeStr over every Unicode code point against an independent TEAL string-literal parser; contract on Int.__init__ (pyvc/z3); bounded stand-in for '
+                      'concatenations and the other literal syntaxes on the spec AVM',
+         'text': 'For each code point the literal produced by escapeStr parses back (independent TEAL grammar) to exactly its UTF-8 bytes, is printable ASCII and stays one token even when followed '
+                 'by a comment. Int.__init__ is proved to accept exactly the integers in [0, 2^64) and to store them. Strings over an adversarial alphabet, raw bytes, base16/32/64 forms, malformed '
+                 'literals, addresses and method signatures are compiled and executed on the spec AVM (bounded).',
+         'note': 'trusted: TEAL literal grammar of spec/avm.py, python base64/hashlib, algosdk address codec; codec homomorphism assumed (bounded-validated).',
+         'design_ref': 'DESIGN.md 5/C13'},
+ 'C18': {'level': 'other',
+         'engine': 'fragcheck',
+         'technique': 'fragment contracts for Comment / Nonce / Pragma / Assert(comment) (fragcheck, z3) + bounded stand-ins: generated programs compiled with and without adversarial annotations, '
+                      'direct annotation probes v2..10, annotation placement around a store/load pair the slot optimiser removes',
+         'text': "Each annotation construct is proved (on opaque children, all run-time states) to have exactly its child's meaning (Nonce: plus the documented push-and-pop); a comment text with a "
+                 'line break must not become code. At text level, generated programs annotated at random statement positions and with adversarial subroutine names, one-construct probes (5 constructs '
+                 'x adversarial texts x versions 2..10) and an annotation at every position relative to a removable store/load pair (7 positions x 3 forms x 5 settings) must give the same '
+                 'instruction stream as the un-annotated program once comment lines are dropped and labels renamed canonically (bounded).',
+         'note': 'trusted: spec terms, TEAL line grammar of spec/avm.py. Known finding (a comment between store s / load s hides the pair from the optimiser) is recognised only when that hidden pair '
+                 'explains the whole difference.',
+         'design_ref': 'DESIGN.md 5/C18'},
+ 'C08': {'level': 'other',
+         'engine': 'exprsym',
+         'technique': 'run-time guards built by the real MethodConfig.approval_cond / CallConfig code for all 4 + 4^5 configurations (exhaustive), each proved by z3 over symbolic uint64 OnCompletion '
+                      '/ ApplicationID against the registration semantics; bounded stand-in for whole routers on the spec AVM (generated and directed registrations)',
+         'text': 'For every CallConfig and every one of the 1024 MethodConfigs the guard expression returned by the real code is proved non-zero exactly on the allowed (OnCompletion, create / '
+                 'non-create) pairs for all inputs. Dispatch of whole routers - generated, plus directed registrations (uniform ALL/CALL/CREATE, the default MethodConfig, each single OnCompletion x '
+                 "CallConfig, uniform bare actions, handlers registered under another name than the function's via overriding_name / Router.method(name=)) - is checked on the spec AVM for all calls "
+                 "incl. unknown, short and the function's own unregistered selector, the clear-state program and the contract description (bounded).",
+         'note': 'trusted: spec/exprsym.py operator meanings, registration semantics as written in the check, sha512/256. approval_construction / to_cond_node / program_construction have no own '
+                 'contract (bounded only).',
+         'design_ref': 'DESIGN.md 5/C08'},
+ 'C09': {'level': 'other',
+         'engine': 'enumeration',
+         'technique': 'enumeration over arities: the real argument-decoding glue of routed methods is executed for every arity in a range on opaque ABI values and its instruction list compared '
+                      'structurally with the ARC-4 calling convention (E, exhaustive within the range) + bounded stand-ins: generated method signatures routed and called with ARC-4 encoded arguments '
+                      'on the spec AVM, registration histories against the returned contract description',
+         'text': 'For 0..24 (quick) / 0..40 (thorough) plain arguments x 0..4 transaction arguments x with / without a result x scratch / frame-pointer flavour, for all argument values: plain '
+                 'argument i is decoded from ApplicationArgs[i+1]; with more than 15, arguments 15.. come from one tuple in ApplicationArgs[15], de-tupled in order; transaction argument j of t is '
+                 'the group transaction at GroupIndex - (t - j), its type enforced unless generic. Bounded: generated signatures (0..20 parameters, all kinds) executed with real encoded arguments '
+                 '(binding, reference indices, result logged once as 0x151f7c75 ++ encoding before approve); registration histories (plain / overriding name / decorator / described / refused) '
+                 'against the contract JSON and the selectors the program dispatches on.',
+         'note': 'no pyvc contract: the glue builds lists by comprehensions over ABI value objects; the arity enumeration is exhaustive only within its stated bound.',
+         'design_ref': 'DESIGN.md 5/C09, 10.4'},
+ 'C14': {'level': 'other',
+         'engine': 'pyvc',
+         'technique': 'contract on the real InnerTxnBuilder.MethodCall (pyvc VCs over arbitrary signatures / argument lists incl. its `match` dispatch; z3/cvc5) + rejection probes (enumeration) + '
+                      'bounded stand-in: generated signatures compiled and executed on the spec AVM, inner group decoded as an ARC-4 callee would',
+         'text': 'Proved for every signature and argument list: MethodCall returns Seq(transaction arguments in order each followed by itxn_next; type_enum = appl; [application_id]; [accounts]; '
+                 '[applications]; [assets]; application_args; extra fields), the reference arguments are appended to their foreign array in order and passed as the one-byte index ARC-4 prescribes '
+                 '(accounts and applications position + 1, assets position), plain arguments follow the selector of the given signature in order (an Expr as is, an ABI value as its encoding); only '
+                 "TealInputError / TealTypeError (or algosdk's encoding error beyond 255 references) are raised. Bounded: generated signatures incl. repeated reference kinds and caller-supplied "
+                 'foreign arrays executed on the spec AVM; type rejections probed. Known finding: no tuple packing beyond 15 arguments.',
+         'note': 'the constructors (SetField, Seq, Bytes, MethodSignature, uint8 encode) and the type-spec queries are callee summaries; run-time behaviour is bounded only.',
+         'design_ref': 'DESIGN.md 5/C14, 10.3'},
+ 'C19': {'level': 'other',
+         'engine': 'enumeration',
+         'technique': 'exhaustive enumeration over a bounded universe of ABI type terms against an independent layout erasure (and the reference codec on values): type_spec_is_assignable_to on all '
+                      'ordered pairs, the set() of every value class on all ordered pairs, all routes to a TypeSpec; call-site rejection sampled',
+         'text': 'For every ordered pair (a, b) of a universe of ~200 (quick) type terms - leaves, arrays, tuples, named tuples, nested, reference and transaction types - '
+                 'type_spec_is_assignable_to(a, b) implies that a and b have the same ARC-4 layout (or b is the generic transaction type), and sampled values of a encode to the same bytes under b; '
+                 'b.new_instance().set(a value) is rejected unless the layouts agree; the TypeSpec obtained from the type string, a method signature, the algosdk type object, the annotation and '
+                 'new_instance() is the same type. Not a structural-induction proof: exhaustive only within the universe.',
+         'note': 'bounded universe; trusted: algosdk type parser / codec and the erasure; Tuple.set takes elements and is not a whole-value assignment.',
+         'design_ref': 'DESIGN.md 5/C19'},
+ 'C06': {'level': 'other',
+         'engine': 'pyvc',
+         'technique': "contracts on the ARC-4 layout arithmetic and on _encode_tuple's first loop (pyvc loop invariants against an independent element-by-element position function, z3) + bounded "
+                      'stand-in against the reference codec algosdk.abi (shapes, layout classes, copy matrix, length-prefix boundaries)',
+         'text': '_bool_sequence_length, _consecutive_thing_num, _bool_aware_static_byte_length and the head-position bookkeeping of _encode_tuple are proved for every type sequence against the '
+                 'ARC-4 position function (bool packing included). Type strings, dynamic-ness, static lengths and the bytes produced by set()/encode() are compared with algosdk.abi for generated and '
+                 'layout-class shapes with boundary-biased values at versions 5..10, in the main routine and inside subroutines; X.set(another ABI value) for all ordered pairs of 14 types; every '
+                 'route by which a dynamic value gets its uint16 length prefix at lengths around 255/256 ... 4000 (bounded). Out-of-range integers: rejected as Python ints, failing as expressions '
+                 '(bounded).',
+         'note': "trusted: algosdk.abi, the position-function spec, TypeSpec interface contracts for element types. The Expr layer of _encode_tuple's second loop and the scalar codecs are bounded "
+                 'only.',
+         'design_ref': 'DESIGN.md 5/C06'},
+ 'C07': {'level': 'other',
+         'engine': 'pyvc',
+         'technique': 'contract on the real _index_tuple against the ARC-4 position function (pyvc VCs over arbitrary type sequences and indices, z3/cvc5; callee contracts of the layout helpers '
+                      'shared with C06) + bounded stand-in: decode / element access on generated shapes, values and positions against algosdk.abi on the spec AVM',
+         'text': 'Proved for every sequence of element types and every index: _index_tuple raises ValueError exactly for an out-of-range index and TypeError exactly for a mismatching output type, '
+                 "and otherwise returns decode_bit at the element's ARC-4 bit position (bool), a decode between the uint16 head at the element's head offset and the head of the first following "
+                 'dynamic element (dynamic; open-ended iff none follows), or a decode of the window [offset, offset + static length) (static; the abbreviated forms only where they denote that '
+                 'window). Bounded: for generated type shapes and values every tuple / array position (constant and computed index), get(), length() and the decode-encode round trip are compared '
+                 'with the reference encoding of the component; out-of-range indices must fail. Three classes of non-failing out-of-range array accesses are known findings.',
+         'note': 'array element access (ArrayElement, computed indices), the scalar decoders and the Expr constructors are bounded only; the contract treats decode()/decode_bit()/ExtractUint16/Int '
+                 'as pure record constructors.',
+         'design_ref': 'DESIGN.md 5/C07, 10.3'},
+ 'C04': {'level': 'other',
+         'engine': 'pyvc',
+         'technique': 'contracts on verifyOpsForVersion / verifyOpsForMode / verifyProgramVersion (pyvc loop invariants, z3) + exhaustive table comparison of Op / TxnField / GlobalField with an '
+                      'independent langspec + bounded structural validation of emitted TEAL',
+         'text': "The version and mode gates are proved for every component list: compilation passes them iff every op exists at the version and in the mode. Every row of pyteal's opcode, "
+                 'transaction-field and global-field tables equals the independently written AVM table (name, first version, modes, type, array-ness). Pragma, label uniqueness, defined targets, '
+                 'placeholders, terminators and immediate ranges are validated on the emitted text of generated programs and hand-written probes (bounded).',
+         'note': 'trusted: spec/langspec.py (hand-written from the AVM spec), spec/tealcheck.py. flattenBlocks / resolveSubroutines label contracts not yet discharged deductively.',
+         'design_ref': 'DESIGN.md 5/C04'},
+ 'C03': {'level': 'other',
+         'engine': 'pyvc',
+         'technique': 'contracts (pyvc, z3/cvc5) on the option-default functions, on _has_load_dependencies and on _apply_slot_to_stack (every block / routine / skip set: what is handed to the '
+                      "removal function); version-parametric fragment contracts (C01); bounded stand-ins: every option pair x versions on generated programs against the description's meaning, "
+                      'slot-kind x placement x observer scenarios, ABI subroutines and mutual / self recursion of every routine-kind pair under every setting',
+         'text': 'Proved: OptimizeOptions.optimize_scratch_slots / use_frame_pointers follow the documented defaults (v9 / v8) and honour / reject explicit requests; _has_load_dependencies is True '
+                 'iff another load of the slot exists; every slot _apply_slot_to_stack hands to _remove_extraneous_slot_access is not skipped, has `store s` immediately followed by `load s` in the '
+                 'current block and no other load in the routine. The clause the property needs on top - the slot is stored nowhere else - is refuted: the recorded finding O3.4, recognised only when '
+                 'it is the sole failing clause and attributed exactly in the bounded part (the mismatch disappears when the multiply-stored slots are withheld). Whole-program independence of '
+                 '(scratch_slots, frame_pointers, version) is a bounded stand-in.',
+         'note': '_remove_extraneous_slot_access / apply_global_optimizations (list filter / copy) are not under contract; whole-program part bounded (labelled). Known finding O3.4 is reported as '
+                 'KNOWN-FINDING.',
+         'design_ref': 'DESIGN.md 5/C03'},
+ 'C05': {'level': 'other',
+         'engine': 'fragcheck',
+         'technique': 'fragment contracts (stack delta / type_of / has_return clauses, z3) + exhaustive tables (type lattice, operator signatures vs langspec, every public constructor x '
+                      '{uint64,bytes}^k type vectors) + bounded abstract interpretation of emitted TEAL (spec/tealcheck, self-checked at import)',
+         'text': "Each construct's fragment is proved to push exactly type_of() values and never to touch the stack below its entry, for all run-time states (fragcheck); require_type / types_match "
+                 "are checked on all 16 type pairs; every operator factory's operand/result types agree with the langspec signature of its op; every public expression constructor is tried on every "
+                 'vector of stack types up to arity 3 and whatever compiles must keep stack and type discipline (exhaustive). Per-program discipline (equal heights on all paths, retsub deltas, frame '
+                 'cells, no definite type error) is decided by abstract interpretation of the emitted TEAL for generated programs, typed storage sinks fed wrong-typed values, routine bodies of the '
+                 'wrong type and ABI subroutines (bounded).',
+         'note': 'trusted: langspec signatures, tealcheck abstract interpreter (canary: one rejected program per clause), spec terms. Raw ScratchSlot.store() excluded as in the property. Known '
+                 'finding O3.4 (optimiser leaves a value on the stack) is reported as KNOWN-FINDING on a fixed witness.',
+         'design_ref': 'DESIGN.md 5/C05'},
+ 'C20': {'level': 'other',
+         'engine': 'bounded',
+         'technique': 'exception-freedom contract on flattenBlocks (pyvc/z3) + bounded stand-ins: exhaustive small-scope enumeration of degenerate control-flow shapes and block graphs, generated '
+                      'programs, size probes',
+         'text': 'All statement shapes of nesting depth <= 2 over pop / empty Seq / If / While / For / Cond / Break / Continue, as first statement and after a statement, at several versions with the '
+                 'optimiser on and off, must compile to TEAL (and behave as described) or raise a PyTeal error; plus generated programs and long / deeply nested probes. Exploration, not proof.',
+         'note': 'only flattenBlocks is under contract; NormalizeBlocks / addIncoming / validateTree / sortBlocks are explored exhaustively on small graphs (bounded). Three defects found here were '
+                 'repaired (fix: commits); recursion depth on long programs is a known finding.',
+         'design_ref': 'DESIGN.md 5/C20'},
+ 'C01': {'level': 'proof',
+         'engine': 'fragcheck',
+         'technique': 'fragment contracts: the real __teal__ of every anchored construct run on opaque children, resulting block graph vs documented meaning by z3 for all run-time states (loops by '
+                      'cut-point simulation); bounded native stand-in for the block passes',
+         'text': 'Per construct (operators, Seq, If/ElseIf, Cond, While, For with Break/Continue exits, Assert, Return/Approve/Reject, scratch access, MultiValue, Comment/Nonce/Pragma, '
+                 'SubroutineCall) the fragment built by the real method is proved equal to the documented meaning over uninterpreted child semantics: same effects in the same order, each operand '
+                 'once, only the selected branch / iteration. The control domain the method can observe (child types, has_return, pending exits, version, mode) is enumerated. flattenBlocks and '
+                 'sortBlocks are under their own pyvc contracts (every block list / graph); NormalizeBlocks is covered by the bounded stand-in only.',
+         'note': 'trusted: spec terms (documented meaning), langspec arities, meaning of control ops; meta-lemma L-frag; parametricity of constructs in their children. Whole-pipeline check is a '
+                 'bounded stand-in (generated programs on the spec AVM). flattenBlocks, sortBlocks and the linking constructs are under pyvc contracts (10.3). Known finding O3.4 (slot optimiser, '
+                 'outside these contracts) is reported as KNOWN-FINDING on a fixed witness.',
+         'design_ref': 'DESIGN.md 3, 5/C01'},
+ 'C02': {'level': 'proof',
+         'technique': 'contract-based deductive verification: pyvc VCs from the real AST of spillLocalSlotsDuringRecursion with ghost execution of every appended op on an array-stack AVM state '
+                      '(symbolic numArgs, slot count, version), z3; bounded native stand-in end to end',
+         'text': 'The per-call-site contract of the spill/restore sequences is proved for every argument count, every number of local slots, v4 (dig) and v5+ (cover/uncover) and every return shape '
+                 'of the callee: in front of callsub the stack is base++spilled++args, afterwards it is base++result and every local slot holds its pre-call value. The rest of the calling convention '
+                 '(SubroutineCall, SubroutineEval.evaluate, frame ops) is currently covered only by the bounded stand-in (generated recursive programs executed on the spec AVM against direct '
+                 'evaluation).',
+         'note': 'trusted: spec/symavm.py, callee summary (pops n, pushes r, may clobber scratch), sorted() contract, slot ids distinct and <256 (C10), meta-lemma L-call; pyvc encoding; z3. Bounded '
+                 'part never counted as proved. Recursion scenarios (every caller/callee kind pair, self recursion) are bounded. Known finding O3.4 (slot optimiser: a frame-pointer routine returns a '
+                 'leftover value) is reported as KNOWN-FINDING on a fixed witness.',
+         'design_ref': 'DESIGN.md 5/C02'},
+ 'C16': {'level': 'proof',
+         'technique': 'contract-based deductive verification: pyvc VCs from the real AST of multiplyFactors (loop invariant, symbolic factor count) and WideRatio.__teal__ (against the callee '
+                      'contract), z3; bounded native stand-in end to end',
+         'text': 'multiplyFactors is verified for every number of factors by a loop invariant over the spec sequences (running product, overflow, world threading, first abnormal factor); '
+                 'WideRatio.__teal__ is verified against that contract with the combine block executed on the symbolic AVM over mathematical integers: fails iff a running product overflows 128 bits, '
+                 'the divisor is zero or the quotient exceeds 64 bits, else pushes exactly floor(N/D).',
+         'note': "trusted: spec/symavm.py op semantics, the Expr.__teal__ interface contract for opaque factor expressions, meta-lemma L-frag, pyvc's encoding of the Python subset, z3. The "
+                 'end-to-end compile+run check is a bounded stand-in (labelled).',
+         'design_ref': 'DESIGN.md 5/C16'}}
